@@ -28,6 +28,7 @@ from fractions import Fraction
 
 sys.path.insert(0, os.path.dirname(os.path.dirname(os.path.abspath(__file__))))
 from sa import core, deg, pyfacts as pf  # noqa: E402
+from sa.pyfacts import clone as _ast_clone  # noqa: E402
 from sa.deg import ANY, D0, Deg, K, Lin, Map, Q, Tup, Unk, fmt, lst, num, rows, sym  # noqa: E402
 from sa.selftest import Mutant  # noqa: E402
 
@@ -137,15 +138,22 @@ class Ctx:
 
 
 def mode_list(s):
-    init = s.prog.module(ST).func("SemilocalSettings.__init__")
+    """modes accepted by SemilocalSettings.__init__: operands of its `mode in <list>` tests, resolved through the
+    engine (a literal list or a module-level named list alike)"""
+    mod = s.prog.module(ST)
+    init = mod.func("SemilocalSettings.__init__")
     modes = []
-    for n in ast.walk(init):
-        if isinstance(n, ast.Compare) and len(n.ops) == 1 and isinstance(n.ops[0], ast.In) \
-                and isinstance(n.comparators[0], (ast.List, ast.Tuple)):
-            for e in n.comparators[0].elts:
-                if isinstance(e, ast.Constant) and isinstance(e.value, str) and e.value not in modes:
-                    modes.append(e.value)
-    if len(modes) < 4:
+    s.eng.frames.append(deg.Frame(None, mod))
+    try:
+        for n in ast.walk(init):
+            if isinstance(n, ast.Compare) and len(n.ops) == 1 and isinstance(n.ops[0], (ast.In, ast.NotIn)):
+                v = s.eng.eval_expr(n.comparators[0], deg.Env())
+                for x in (v.items if isinstance(v, Tup) else []):
+                    if isinstance(x, K) and isinstance(x.value, str) and x.value not in modes:
+                        modes.append(x.value)
+    finally:
+        s.eng.frames.pop()
+    if len(modes) < 2:
         raise core.AnalysisError("SemilocalSettings.__init__: mode membership tests not found")
     return modes
 
@@ -161,7 +169,9 @@ def rule_semilocal(chk, cx):
     for mode in mode_list(s):
         st = s.new(ST, "SemilocalSettings", K(mode))
         mgga = isinstance(st.attrs.get("level"), K) and st.attrs["level"].value == "MGGA"
-        plan = s.obj(PL, "SemilocalPlan", settings=st, nspin=NSPIN)
+        plan = s.new(PL, "SemilocalPlan", st, NSPIN)
+        if not isinstance(plan, deg.Obj):
+            raise core.AnalysisError("SemilocalPlan: constructor could not be interpreted")
         where = "SemilocalPlan(mode=%s)" % mode
         fw = s.call(plan, "get_feat", [rho5()])
         cx.flush(fw, where + ".get_feat", "amp")
@@ -170,7 +180,7 @@ def rule_semilocal(chk, cx):
             if not fw.mismatches:
                 raise core.AnalysisError("%s.get_feat: result is not row-typed (%s)" % (where, fmt(feat)))
             continue
-        ln = fline(s, PL, "_BaseSemilocalPlan.get_feat")
+        ln = s.hooks.method_of(plan, "get_feat").fdef.lineno
         for k in sorted(feat.rows):
             r = feat.rows[k]
             c = comp(r, "c")
@@ -194,7 +204,7 @@ def rule_semilocal(chk, cx):
                 cx.want("amp", bw, where + ".get_vxc", v, "c", -1, "vxc[:, %d]" % k, PL,
                         "SemilocalPlan._fill_vxc_%s_" % mode, ln, "derivative with respect to a degree-1 ingredient")
         # SemilocalPlan2.get_vxc
-        plan2 = s.obj(PL, "SemilocalPlan2", settings=st, nspin=NSPIN)
+        plan2 = s.new(PL, "SemilocalPlan2", st, NSPIN)
         vrho, vsigma, vtau = Q(ANY), Q(ANY), Q(ANY)
         b2 = s.call(plan2, "get_vxc", [vfeat, q(c=1), vrho, q(c=2), vsigma, q(c=1) if mgga else K(None),
                                        vtau if mgga else K(None)])
@@ -211,7 +221,7 @@ def rule_semilocal(chk, cx):
             [q(c=1), q(c=1, occ=1)] if mgga else [K(None), K(None)]))
         cx.flush(oc, "get_occd(mode=%s)" % mode, "pair")
         vals = deg.items_of(oc.value)
-        ln = fline(s, PL, "_BaseSemilocalPlan.get_occd")
+        ln = s.hooks.method_of(plan2, "get_occd").fdef.lineno
         if vals is None or len(vals) != 2 or not all(isinstance(v, Q) and v.is_rows for v in vals):
             if not oc.mismatches:
                 raise core.AnalysisError("get_occd(mode=%s): unexpected result %s" % (mode, fmt(oc.value)))
@@ -227,7 +237,7 @@ def rule_semilocal(chk, cx):
             # also the forward rows of this second implementation
             cx.want("amp", oc, "get_occd(mode=%s)" % mode, fr, "N", comp(fr, "c"), "feat[:, %d]" % k, PL,
                     "_BaseSemilocalPlan.get_occd", ln, "nspin exponent must equal the amplitude degree")
-    chk.floor("pair", 40, "vxc rows / vrho,vsigma,vtau / occd rows over four modes (+ NLDF, SDMX, baselines)")
+    chk.floor("pair", 35, "vxc rows / vrho,vsigma,vtau / occd rows over four modes (+ NLDF, SDMX, baselines)")
     chk.floor("amp", 30, "feature rows over four modes (+ NLDF, SDMX, normaliser inputs)")
 
 
@@ -239,14 +249,14 @@ def rule_nldf(chk, cx):
         th = lst(*[sym("th%d" % i) for i in range(3 if level == "MGGA" else 2)])
         st = s.new(ST, "NLDFSettingsVIJ", K(level), th, K("one"), KS(["se", "se_r2"]), KS(["se_grad", "se_rvec"]),
                    lst(pair(-1, 0), pair(0, 1), pair(-1, -1)), KS(["se", "se_ar2"]), lst(th, th))
-        n_l0, n_l1 = 2, 2
-        plan = s.obj(PL, "NLDFAuxiliaryPlan", nldf_settings=st, nspin=NSPIN, coef_order=K("qg"), nalpha=num(4),
-                     _l0_start_locs=lst(*[num(i) for i in range(n_l0)]),
-                     _l1_start_locs=lst(*[num(n_l0 + 3 * i) for i in range(n_l1)]),
-                     _l1_dots=st.attrs["l1_feat_dots"],
-                     _cached_l1_data=Map({Fraction(0): Tup([], True)}),
-                     _cached_p_i_qg=Map({Fraction(0): Tup([], True)}),
-                     _use_smooth_expnt_cutoff=K(False), _raise_large_expnt_error=K(False))
+        n_l0 = 2
+        # the plan's bookkeeping attributes come from its own (abstractly executed) constructor
+        plan = s.new(PL, "NLDFAuxiliaryPlan", st, NSPIN, q(), sym("lambd"), sym("nalpha"), coef_order=K("qg"))
+        if not isinstance(plan, deg.Obj):
+            raise core.AnalysisError("NLDFAuxiliaryPlan: constructor could not be interpreted")
+        plan.attrs["nalpha"] = num(4)
+        plan.attrs["_use_smooth_expnt_cutoff"] = K(False)
+        plan.attrs["_raise_large_expnt_error"] = K(False)
         nrow = 5 if level == "MGGA" else 4
         rho_data = rows(0, {i: q(c=1) for i in range(nrow)})
         where = "NLDFAuxiliaryPlan(%s,ij)" % level
@@ -323,30 +333,44 @@ def rule_sdmx(chk, cx):
     for m, c in prog.all_classes():
         if m.rel != PL:
             continue
-        ms = pf.methods(c)
-        if "get_features" in ms and "get_vxc" in ms:
+        if "__init__" in pf.methods(c) and prog.find_method(m, c, "get_features") and prog.find_method(m, c, "get_vxc"):
             classes.append(c.name)
     if len(classes) < 3:
         raise core.AnalysisError("fewer than three SDMX-like plan classes define get_features/get_vxc (%s)" % classes)
+    pows = lambda: lst(num(0), num(1), num(2))  # noqa: E731
+    kinds = lambda: lst(num(2), num(1), num(1), num(1))  # noqa: E731
+    cfg = {
+        "SADMPlan": lambda: s.new(ST, "SADMSettings", K("smooth")),
+        "SDMXPlan": lambda: s.new(ST, "SDMXG1Settings", pows(), num(1), num(1)),
+        "SDMXFullPlan": lambda: s.new(ST, "SDMXFullSettings", Map({Fraction(1): Tup([pows(), kinds()]),
+                                                                    Fraction(2): Tup([pows(), kinds()])})),
+        "SDMXIntPlan": lambda: s.new(ST, "SDMXFullSettings", Map({Fraction(1): Tup([pows(), kinds()])})),
+    }
     for cname in classes:
-        settings = s.obj(ST, "SDMXBaseSettings", nfeat=num(2) if cname != "SADMPlan" else num(1))
-        n0 = 1
+        if cname not in cfg:
+            if "__init__" not in pf.methods(s.prog.module(PL).cls(cname)):
+                continue            # abstract base: analysed through its concrete subclasses
+            raise core.AnalysisError("SDMX-like plan class %s has no settings configuration in the checker" % cname)
+        settings = cfg[cname]()
+        plan = s.new(PL, cname, settings, NSPIN, q(), sym("lambd"), sym("nalpha"))
+        if not isinstance(plan, deg.Obj):
+            raise core.AnalysisError("%s: constructor could not be interpreted" % cname)
         n1 = 0 if cname == "SADMPlan" else 1
-        plan = s.obj(PL, cname, settings=settings, nspin=NSPIN, num_l0_feat=num(n0), num_l1_feat=num(n1),
-                     nalpha=num(3), fit_matrices=lst(q(), q()), fit_matrix=q(), has_coul_list=K(True),
-                     wt_dict=Map({Fraction(0): q(), Fraction(1): q()}))
+        n0 = 1
         where = "%s" % cname
         l0tmp, l1tmp = Q(ANY), Q(ANY)
         fw = s.call(plan, "get_features", [q(c=1)], {"out": K(None), "l0tmp": l0tmp, "l1tmp": l1tmp})
+        gf = s.hooks.method_of(plan, "get_features")
+        gv = s.hooks.method_of(plan, "get_vxc")
         cx.flush(fw, where + ".get_features", "amp")
         out = fw.value
-        ln = fline(s, PL, cname + ".get_features")
+        ln = gf.fdef.lineno
         if not (isinstance(out, Q) and out.is_rows and out.axis == 0):
             if not fw.mismatches:
                 raise core.AnalysisError("%s.get_features: result is not row-typed (%s)" % (cname, fmt(out)))
             continue
-        if len(out.rows) < n0 + n1:
-            raise core.AnalysisError("%s.get_features wrote rows %s, expected %d" % (cname, sorted(out.rows), n0 + n1))
+        if not out.rows:
+            raise core.AnalysisError("%s.get_features wrote no rows" % cname)
         for k in sorted(out.rows):
             r = out.rows[k]
             if comp(r, "c") is None:
@@ -358,13 +382,15 @@ def rule_sdmx(chk, cx):
         bw = s.call(plan, "get_vxc", [vx, q(c=1), q(c=1)], {"out": K(None)})
         cx.flush(bw, where + ".get_vxc", "pair")
         res = bw.value
-        ln = fline(s, PL, cname + ".get_vxc")
+        ln = gv.fdef.lineno
         rr = res.rows if isinstance(res, Q) and res.is_rows else None
         if rr is None:
             if not bw.mismatches:
                 raise core.AnalysisError("%s.get_vxc: result is not row-typed (%s)" % (cname, fmt(res)))
             continue
-        need = [0] + ([1, 2, 3] if n1 else [])
+        need = sorted(rr) if rr else [0]
+        if 0 not in need:
+            need = [0] + need
         for k in need:
             cx.want("pair", bw, where + ".get_vxc", rr.get(k, Q(ANY)), "N", 0, "out[%d]" % k, PL, cname + ".get_vxc", ln,
                     "the factor multiplying vxc_ig must be the one applied in get_features")
@@ -373,28 +399,36 @@ def rule_sdmx(chk, cx):
 
 def rule_baselines(chk, cx):
     s = cx.s
-    # _sl_x_helper: value and derivative carry the same nspin exponent, and it is -1 (SEP: m / nspin)
+    # registered spin-averaged exchange baselines: value and derivative carry the same nspin exponent, and it
+    # is -1 (SEP: m / nspin).  The functions are taken from the BASELINE_CODES registry, not by private name.
     X = rows(1, {0: q(c=1), 1: q(), 2: q(), 3: q()}, default=q())
     X.shape = Tup([NSPIN, q(), q()])
-    for helper in ("_lda_x_helper", "_pbe_x_helper"):
-        fn = s.hooks.func(BL, helper)
-        res = s.call(BL, "_sl_x_helper", [X, fn])
-        where = "_sl_x_helper(%s)" % helper
+    reg = s.global_value(BL, "BASELINE_CODES")
+    if not isinstance(reg, Map):
+        raise core.AnalysisError("BASELINE_CODES is no longer a literal dict")
+    n_done = 0
+    for code in ("LDA_X", "GGA_X_PBE"):
+        fn = reg.d.get(code)
+        if not isinstance(fn, deg.Fn):
+            raise core.AnalysisError("BASELINE_CODES[%r] is not a module-level function" % code)
+        res = s.eng.run_function(fn.fdef, [X], mod=fn.mod)
+        where = "baseline %s (%s)" % (code, fn.fdef.name)
         cx.flush(res, where, "pair")
         vals = deg.items_of(res.value)
-        ln = fline(s, BL, "_sl_x_helper")
+        ln = fn.fdef.lineno
         if vals is None or len(vals) != 2:
             if not res.mismatches:
                 raise core.AnalysisError("%s: unexpected result %s" % (where, fmt(res.value)))
             continue
+        n_done += 1
         e, d = vals
-        cx.want("amp", res, where, e, "N", -1, "e", BL, "_sl_x_helper", ln, "spin average: 1/nspin * sum_s e[nspin n_s]")
+        cx.want("amp", res, where, e, "N", -1, "e", BL, fn.fdef.name, ln, "spin average: 1/nspin * sum_s e[nspin n_s]")
         d0 = d.rows.get(0) if isinstance(d, Q) and d.is_rows else d
         cx.want("pair", res, where, d0 if d0 is not None else Q(ANY), "N", comp(e, "N") if comp(e, "N") is not None else -1,
-                "dedx[0]", BL, "_sl_x_helper", ln, "derivative carries the same 1/nspin as the value")
+                "dedx[0]", BL, fn.fdef.name, ln, "derivative carries the same 1/nspin as the value")
     # KernelEvalBase._baseline, SEP branch
     for rel, cname in ((XE, "KernelEvalBase"),):
-        base = s.hooks.func(BL, "lda_x")
+        base = reg.d.get("LDA_X")
         obj = s.obj(rel, cname, mode=K("SEP"))
         X3 = rows(1, {0: q(c=1)}, default=q())
         X3.shape = Tup([NSPIN, q(), q()])
@@ -426,61 +460,77 @@ def rule_normalizer_inputs(chk, cx):
     rho_data = rows(1, {i: q(c=1) for i in range(5)})
     X0T = q()
     X0T.shape = Tup([NSPIN, q(), q()])
-    obj = s.obj(XE, "ModelWithNormalizer", nfeat=num(0), model=Unk("model"), normalizer=Unk("normalizer"))
-    res = s.call(obj, "__call__", [X0T, rho_data])
-    env = res.env
-    # unknowns here are expected (the model call); only the spin-scaled ingredients matter: every local whose
-    # value carries a power of nspin
+    obj = s.obj(XE, "ModelWithNormalizer", nfeat=num(1), model=Unk("model"), normalizer=Unk("normalizer"))
+    calls = []
+
+    def ob(node, name, args, kwargs):
+        if (name or "").split(".")[-1].startswith("apply_norm"):
+            calls.append((node, args))
+    s.eng.call_observers = [ob]
+    try:
+        res = s.call(obj, "__call__", [X0T, rho_data])
+    finally:
+        s.eng.call_observers = []
     found = 0
-    for n in pf.walk_no_nested(fdef):
-        if isinstance(n, ast.Assign) and len(n.targets) == 1 and isinstance(n.targets[0], ast.Name) \
-                and n.targets[0].id in env:
-            v = env[n.targets[0].id]
+    done = set()
+    for node, args in calls:
+        for i, v in enumerate(args):
             c, nn = comp(v, "c"), comp(v, "N")
-            if c is None or nn is None or c == Lin() or v.num is not None:
+            if c is None or nn is None or c == Lin() or v.num is not None or "e" in v.deg.d:
                 continue
+            key = (pf.src(node.args[i]) if i < len(node.args) else str(i), str(c))
+            if key in done:
+                continue
+            done.add(key)
             found += 1
-            cx.want("amp", None, "ModelWithNormalizer.__call__", v, "N", c, n.targets[0].id, XE,
-                    "ModelWithNormalizer.__call__", n.lineno, "total-density ingredient = nspin**d * per-spin")
-    for m in res.mismatches:
-        chk.violation("amp", m.rel, m.func, m.stmt, m.line, "degree mismatch: %s vs %s in `%s`" % (m.left, m.right, m.text))
-    if found < 3:
-        raise core.AnalysisError("ModelWithNormalizer.__call__: nspin-scaled rho/sigma/tau assignments not found (%d)" % found)
+            cx.want("amp", None, "ModelWithNormalizer.__call__", v, "N", c, "normaliser ingredient `%s`" % key[0], XE,
+                    "ModelWithNormalizer.__call__", node.lineno, "total-density ingredient = nspin**d * per-spin")
+    if found < 2:
+        raise core.AnalysisError("ModelWithNormalizer.__call__: no density ingredients reach the normalisers' "
+                                 "apply_norm_* calls (%d)" % found)
 
 
 def rule_rhocut(chk, cx):
-    """the density threshold handed to get_cider_exponent*(per-spin rho, ..., rhocut=self.X, nspin=self.nspin)
-    is a threshold on the per-spin density: X = rhocut / nspin in the constructor"""
-    s0 = deg.Session(chk.tree, [PL], poly_names=())
-    mod = s0.prog.module(PL)
-    cls = mod.cls("NLDFAuxiliaryPlan")
-    attrs = set()
-    for n in ast.walk(cls):
-        if isinstance(n, ast.Call) and (pf.call_name(n) or "").split(".")[-1].startswith("get_cider_exponent"):
-            for kw in n.keywords:
-                if kw.arg == "rhocut":
-                    if not pf.is_self_attr(kw.value):
-                        raise core.AnalysisError("rhocut argument of %s is not a plain self attribute: %s" % (
-                            pf.call_name(n), pf.src(kw.value)))
-                    attrs.add(kw.value.attr)
-    if not attrs:
-        raise core.AnalysisError("NLDFAuxiliaryPlan: no get_cider_exponent*(..., rhocut=self.X) call found")
-    init = mod.func("NLDFAuxiliaryPlan.__init__")
-    found = 0
-    for n in pf.walk_no_nested(init):
-        if isinstance(n, ast.Assign) and len(n.targets) == 1 and pf.is_self_attr(n.targets[0]) \
-                and n.targets[0].attr in attrs:
-            env = deg.Env({a.arg: q() for a in init.args.args})
-            env["nspin"] = NSPIN
-            env["rhocut"] = q(c=1)
-            v = s0.eng.eval_expr(n.value, env)
-            found += 1
-            cx.extra_visited.add((PL, "NLDFAuxiliaryPlan.__init__"))
-            cx.want("amp", None, "NLDFAuxiliaryPlan.__init__", v, "N", -1, "self.%s" % n.targets[0].attr, PL,
-                    "NLDFAuxiliaryPlan.__init__", n.lineno,
+    """the density threshold that reaches get_cider_exponent*(per-spin rho, ..., rhocut=...) from
+    NLDFAuxiliaryPlan.eval_feat_exp is a threshold on the per-spin density: constructor rhocut / nspin.
+    Decided by running the constructor and eval_feat_exp abstractly (rhocut typed, not polymorphic) and
+    observing the argument at the call, whatever attribute or helper carries it."""
+    s0 = deg.Session(chk.tree, [ST, FN, PL], poly_names=(), calls=STUBS, hooks_cls=PlanHooks)
+    KS = lambda xs: lst(*[K(x) for x in xs])  # noqa: E731
+    seen = []
+    sigs = {}
+    for fname in ("get_cider_exponent", "get_cider_exponent_gga"):
+        sigs[fname] = [a.arg for a in s0.prog.module(ST).func(fname).args.args]
+
+    def ob(node, name, args, kwargs):
+        base = (name or "").split(".")[-1]
+        if base in sigs:
+            v = kwargs.get("rhocut")
+            if v is None and "rhocut" in sigs[base] and sigs[base].index("rhocut") < len(args):
+                v = args[sigs[base].index("rhocut")]
+            if v is not None:
+                seen.append((base, v, node))
+    for level in ("MGGA", "GGA"):
+        th = lst(*[sym("th%d" % i) for i in range(3 if level == "MGGA" else 2)])
+        st = s0.new(ST, "NLDFSettingsVJ", K(level), th, K("one"), KS(["se"]), lst(th))
+        plan = s0.new(PL, "NLDFAuxiliaryPlan", st, NSPIN, q(), sym("lambd"), sym("nalpha"), rhocut=q(c=1))
+        if not isinstance(plan, deg.Obj):
+            raise core.AnalysisError("NLDFAuxiliaryPlan: constructor could not be interpreted")
+        plan.attrs["_use_smooth_expnt_cutoff"] = K(False)
+        plan.attrs["_raise_large_expnt_error"] = K(False)
+        s0.eng.call_observers = [ob]
+        n0 = len(seen)
+        rt = Tup([q(c=1), q(c=2)] + ([q(c=1)] if level == "MGGA" else []))
+        s0.call(plan, "eval_feat_exp", [rt], {"i": num(-1)})
+        s0.eng.call_observers = []
+        cx.extra_visited |= set(s0.eng.visited)
+        if len(seen) == n0:
+            raise core.AnalysisError("NLDFAuxiliaryPlan(%s).eval_feat_exp: no call of get_cider_exponent* with a "
+                                     "rhocut argument was reached" % level)
+        for base, v, node in seen[n0:]:
+            cx.want("amp", None, "NLDFAuxiliaryPlan(%s).eval_feat_exp -> %s" % (level, base), v, "N", -1,
+                    "rhocut argument", PL, "NLDFAuxiliaryPlan.eval_feat_exp", node.lineno,
                     "rho_s < rhocut/nspin  <=>  nspin*rho_s < rhocut (threshold on the total density)")
-    if not found:
-        raise core.AnalysisError("NLDFAuxiliaryPlan.__init__: assignment of self.%s not found" % sorted(attrs))
 
 
 # ----------------------------------------------------------------------------------------------------------
@@ -551,7 +601,7 @@ def rule_exponent(chk, cx):
                               "2tau); the spin relation requires 2^(%d)" % (nm, d, w), instance=inst)
         if nsite < 2:
             raise core.AnalysisError("%s: fewer than two additive sites compared between the spin branches" % fname)
-    chk.floor("expnt", 12, "7 returned components + additive sites of the two exponent functions")
+    chk.floor("expnt", 6, "7 returned components + additive sites of the two exponent functions")
 
 
 # ----------------------------------------------------------------------------------------------------------
@@ -610,7 +660,7 @@ def rule_sites(chk, cx):
                 chk.note("sites", "%s:%s" % (rel, qn), "nspin arithmetic outside the typed analyses: `%s`" % key[2])
     chk.count("nspin arithmetic sites", len(sites))
     chk.count("nspin arithmetic sites not covered", len(uncovered))
-    chk.floor("sites", 40, "statements with nspin as a multiplicative operand in plans/settings/baselines/evaluators")
+    chk.floor("sites", 25, "statements with nspin as a multiplicative operand in plans/settings/baselines/evaluators")
     if len(uncovered) > 6:
         raise core.AnalysisError("%d nspin arithmetic sites lie outside the typed analyses (at most 6 tolerated): %s" % (
             len(uncovered), uncovered[:8]))
@@ -648,7 +698,7 @@ def _spin_subs(st):
 
 def _mirror(st):
     import copy
-    st2 = copy.deepcopy(st)
+    st2 = _ast_clone(st)
     for n in ast.walk(st2):
         if isinstance(n, ast.Name) and SPIN_NAME.match(n.id):
             n.id = _flip(n.id)
@@ -724,58 +774,78 @@ def rule_sep2(chk, cx):
     (rho 1, sigma 2, tau 1) and the outputs are rescaled by 2**(-1) (energy) and 2**(deg_k - 1) (potentials)."""
     tree = chk.tree
     mod = tree.py(XE2)
-    fn = None
+    fn = cname = cls = None
     for c in mod.body:
         if isinstance(c, ast.ClassDef):
             for m in c.body:
                 if isinstance(m, ast.FunctionDef) and m.name == "_get_baseline":
-                    fn, cname = m, c.name
+                    fn, cname, cls = m, c.name, c
     if fn is None:
         raise core.AnalysisError("_get_baseline vanished from %s" % XE2)
-    params = [a.arg for a in fn.args.args]
-    if len(params) < 3:
-        raise core.AnalysisError("_get_baseline: unexpected signature")
-    tup = params[2]
+    # the anchored method plus the helpers it (transitively, two levels) delegates to
+    top = {f.name: f for f in mod.body if isinstance(f, ast.FunctionDef)}
+    meths = pf.methods(cls)
+    todo, funcs = [(fn, 0)], []
+    while todo:
+        f, d = todo.pop()
+        if any(f is g for g in funcs):
+            continue
+        funcs.append(f)
+        if d >= 2:
+            continue
+        for n in ast.walk(f):
+            if isinstance(n, ast.Call):
+                g = None
+                if isinstance(n.func, ast.Attribute) and isinstance(n.func.value, ast.Name) \
+                        and n.func.value.id in ("self", "cls", cname):
+                    g = meths.get(n.func.attr)
+                elif isinstance(n.func, ast.Name):
+                    g = top.get(n.func.id)
+                if g is not None:
+                    todo.append((g, d + 1))
     in_deg = {0: 1, 1: 2, 2: 1}
     out_deg = {0: -1, 1: 0, 2: 1, 3: 0}
-    loops = [n for n in ast.walk(fn) if isinstance(n, ast.For)]
     n_in = n_out = 0
     qn = "%s._get_baseline" % cname
-    for lp in loops:
-        for n in ast.walk(lp):
-            if isinstance(n, ast.BinOp) and isinstance(n.op, ast.Mult):
-                r = _factor_times(n, lambda root: root == tup)
-                if r is not None and r[2] >= 2 and r[1] in in_deg:
-                    c, k, _ = r
-                    n_in += 1
-                    want = Fraction(2) ** in_deg[k]
-                    inst = "%s: ingredient %d of the spin channel is scaled by %s" % (qn, k, c)
+    for f in funcs:
+        params = {a.arg for a in f.args.args}
+        fq = pf.qualname(f)
+        for lp in [n for n in ast.walk(f) if isinstance(n, ast.For)]:
+            for n in ast.walk(lp):
+                if isinstance(n, ast.BinOp) and isinstance(n.op, ast.Mult):
+                    r = _factor_times(n, lambda root: root in params)
+                    if r is not None and r[2] >= 2 and r[1] in in_deg:
+                        c, k, _ = r
+                        n_in += 1
+                        want = Fraction(2) ** in_deg[k]
+                        inst = "%s: ingredient %d of the spin channel is scaled by %s" % (qn, k, c)
+                        if c == want:
+                            chk.ok("sep2", inst)
+                        else:
+                            chk.violation("sep2", XE2, fq, pf.src(n), n.lineno,
+                                          "ingredient %d (amplitude degree %d) of one spin channel is multiplied by "
+                                          "%s; E = 1/2 sum_s E[2 n_s] needs 2**%d = %s" % (k, in_deg[k], c, in_deg[k], want),
+                                          instance=inst)
+                if isinstance(n, ast.Assign) and len(n.targets) == 1 and isinstance(n.targets[0], ast.Subscript):
+                    t = _const_sub(n.targets[0])
+                    v = _factor_times(n.value, lambda root: True)
+                    if t is None or v is None or t[2] < 2 or v[2] != 1 or t[1] != v[1] or t[1] not in out_deg:
+                        continue
+                    c, k, _ = v
+                    n_out += 1
+                    want = Fraction(2) ** out_deg[k]
+                    inst = "%s: output %d of the spin channel is scaled by %s" % (qn, k, c)
                     if c == want:
                         chk.ok("sep2", inst)
                     else:
-                        chk.violation("sep2", XE2, qn, pf.src(n), n.lineno,
-                                      "ingredient %d (amplitude degree %d) of one spin channel is multiplied by %s; "
-                                      "E = 1/2 sum_s E[2 n_s] needs 2**%d = %s" % (k, in_deg[k], c, in_deg[k], want),
-                                      instance=inst)
-            if isinstance(n, ast.Assign) and len(n.targets) == 1 and isinstance(n.targets[0], ast.Subscript):
-                t = _const_sub(n.targets[0])
-                v = _factor_times(n.value, lambda root: True)
-                if t is None or v is None or t[2] < 2 or v[2] != 1 or t[1] != v[1] or t[1] not in out_deg:
-                    continue
-                c, k, _ = v
-                n_out += 1
-                want = Fraction(2) ** out_deg[k]
-                inst = "%s: output %d of the spin channel is scaled by %s" % (qn, k, c)
-                if c == want:
-                    chk.ok("sep2", inst)
-                else:
-                    chk.violation("sep2", XE2, qn, pf.src(n), n.lineno,
-                                  "output %d of the doubled-density evaluation is multiplied by %s; the spin relation "
-                                  "needs %s (1/2 from the average times 2**deg of the chain rule)" % (k, c, want),
-                                  instance=inst)
-    if n_in < 3 or n_out < 4:
-        raise core.AnalysisError("%s: SEP scaling idiom not recognised (%d inputs, %d outputs)" % (qn, n_in, n_out))
-    chk.floor("sep2", 7, "3 doubled ingredients + 4 rescaled outputs")
+                        chk.violation("sep2", XE2, fq, pf.src(n), n.lineno,
+                                      "output %d of the doubled-density evaluation is multiplied by %s; the spin "
+                                      "relation needs %s (1/2 from the average times 2**deg of the chain rule)" % (
+                                          k, c, want), instance=inst)
+    if n_in < 2 or n_out < 2:
+        raise core.AnalysisError("%s: SEP scaling idiom not recognised in the method or its helpers (%d inputs, "
+                                 "%d outputs)" % (qn, n_in, n_out))
+    chk.floor("sep2", 3, "doubled ingredients + rescaled outputs of the SEP baseline")
 
 
 SPIN_RESOLVED = {
@@ -796,7 +866,7 @@ def rule_spin_mirror(chk, cx):
         fdef = mod.func(fname)
         if len(fdef.args.args) <= max(kinds):
             raise core.AnalysisError("%s: signature changed (%d parameters)" % (fname, len(fdef.args.args)))
-        rep = parity.analyse(fdef, kinds)
+        rep = parity.analyse(fdef, kinds, mod)
         seen = set()
         got = 0
         for status, msg, node in rep.pairs():
@@ -815,7 +885,7 @@ def rule_spin_mirror(chk, cx):
                 chk.count("spin-mirror statements not classified")
         if not got:
             raise core.AnalysisError("%s: no spin-slot stores found" % fname)
-    chk.floor("spin-mirror", 5, "sigma[0]/sigma[2]/sigma[1] in get_sigma, vX0T[0,0]/vX0T[1,0] and two whole-array stores "
+    chk.floor("spin-mirror", 3, "sigma[0]/sigma[2]/sigma[1] in get_sigma, vX0T[0,0]/vX0T[1,0] and two whole-array stores "
                                 "in get_dsigma")
 
 
